@@ -7,9 +7,12 @@
 EXTENDS GffDB, Json
 CONSTANT Depth, Gen
 N(i) == <<96 + i>>
-Sources == << <<MkF(N(1), T_gene, <<>>, <<>>), MkF(N(2), T_exon, <<N(1)>>, <<>>)>>,
-              <<MkF(N(3), T_gene, <<>>, <<>>), MkF(N(4), <<109, 82, 78, 65>>, <<N(3)>>, <<>>), MkF(N(5), T_exon, <<N(4)>>, <<>>), MkF(N(6), T_exon, <<N(4)>>, <<>>)>>,
-              <<>> >>                                    \* an input without features: import fails
+\* a source is what create_db is given: GFF3 TEXT with '##' directives (parsed in this process), or a list of Feature OBJECTS (no directives at all)
+Sources == << [form |-> "text", dirs |-> <<<<100, 49>>, <<118, 32, 51>>>>,              \* "##d1", "##v 3"
+               feats |-> <<MkF(N(1), T_gene, <<>>, <<>>), MkF(N(2), T_exon, <<N(1)>>, <<>>)>>],
+              [form |-> "objects", dirs |-> <<>>,
+               feats |-> <<MkF(N(3), T_gene, <<>>, <<>>), MkF(N(4), <<109, 82, 78, 65>>, <<N(3)>>, <<>>), MkF(N(5), T_exon, <<N(4)>>, <<>>), MkF(N(6), T_exon, <<N(4)>>, <<>>)>>],
+              [form |-> "objects", dirs |-> <<>>, feats |-> <<>>] >>                                    \* an input without features: import fails
 Paths == {"p1", "p2"}
 Absent == [absent |-> TRUE]
 Reads == {"lookup", "all_features", "features_of_type", "children", "parents", "region", "interfeatures", "create_introns",
@@ -20,7 +23,7 @@ vars == <<files, open, h>>
 view == <<files, open, Len(h)>>
 Init == files = [p \in Paths |-> Absent] /\ open = "" /\ h = <<>>
 
-Content(k) == Create(Sources[k], <<>>, DefaultDialect, DefaultCfg)
+Content(k) == Create(Sources[k].feats, Sources[k].dirs, DefaultDialect, DefaultCfg)
 CreateDb(p, k, force, strat) ==
   LET c == Content(k)
       occupied == files[p] # Absent
@@ -29,7 +32,7 @@ CreateDb(p, k, force, strat) ==
               ELSE IF c.st = "raise" THEN [files EXCEPT ![p] = [absentOrEmpty |-> TRUE]]   \* (the path was free, or force unlinked it) a failed import leaves a file without features
               ELSE [files EXCEPT ![p] = Proj(c.db)]
   /\ open' = IF st = "ok" THEN p ELSE open
-  /\ h' = Append(h, [op |-> "create", path |-> p, src |-> k, feats |-> Sources[k], force |-> force, strategy |-> strat, st |-> st, files |-> files'])
+  /\ h' = Append(h, [op |-> "create", path |-> p, src |-> k, feats |-> Sources[k].feats, dirs |-> Sources[k].dirs, form |-> Sources[k].form, force |-> force, strategy |-> strat, st |-> st, files |-> files'])
 OpenDb(p) == /\ files[p] # Absent /\ "absentOrEmpty" \notin DOMAIN files[p]
              /\ open' = p /\ UNCHANGED files
              /\ h' = Append(h, [op |-> "open", path |-> p, st |-> "ok", files |-> files])
